@@ -522,13 +522,16 @@ func noGlobalWrite(c *Check, r *Repo, ea *effAnalysis) {
 }
 
 // nondetSources scans functions for sources of run-to-run variation.
+// sortedCollect: the map ranges of the accepted collect-then-sort form (c09b.go), by the position of their for.
+var sortedCollect map[token.Pos]bool
+
 func nondetSources(fns []*ssa.Function, pos func(token.Pos) string) map[string][]string {
 	out := map[string][]string{}
 	for _, f := range fns {
 		instrsOf(f, func(in ssa.Instruction) {
 			switch x := in.(type) {
 			case *ssa.Range:
-				if _, ok := x.X.Type().Underlying().(*types.Map); ok {
+				if _, ok := x.X.Type().Underlying().(*types.Map); ok && !sortedCollect[x.Pos()] {
 					out["map-range"] = append(out["map-range"], fmt.Sprintf("%s in %s ranges over a map (%s): iteration order varies between runs", pos(x.Pos()), fnName(f), x.X.Type()))
 				}
 			case *ssa.Select:
@@ -579,7 +582,9 @@ func determinism(c *Check, r *Repo, ea *effAnalysis, roots []*ssa.Function) {
 		fns = append(fns, f)
 		c.Note("functions scanned for nondeterminism sources", fnName(f))
 	}
+	sortedCollect = sortedCollectRanges(r, ea)
 	got := nondetSources(fns, r.pos)
+	sortedCollect = nil
 	ni := 0
 	for _, f := range fns {
 		instrsOf(f, func(ssa.Instruction) { ni++ })
